@@ -1096,3 +1096,28 @@ Proof.
   transitivity (set_patches (k_patches (N k)) (N (N k))); [reflexivity|].
   rewrite N_idem. apply set_get_patches.
 Qed.
+
+Example add_remove_examples :
+  let e := mkEnv [("a.yaml", []); ("app.env", ["A"]); ("kustomization.yaml", []); ("t.yaml", [])] ["sub"] "kustomization.yaml" in
+  let k := fix_kustomization (set_resources ["b.yaml"] (set_commonLabels (Some [("app", "x")]) empty_kust)) in
+  fixed k /\
+  (exists k1, apply_op e (Ok k) (AddResource ["a.yaml"] false) = Ok (Some k1) /\ k_resources k1 = ["b.yaml"; "a.yaml"]) /\
+  (exists k1, apply_op e (Ok k) (AddTransformer ["t.yaml"]) = Ok (Some k1)) /\
+  (exists k1, apply_op e (Ok k) (AddBuildMetadata ["originAnnotations,managedByLabel"]) = Ok (Some k1)) /\
+  convert_slice_to_map ["tier:web"] [] = Ok [("tier", "web")] /\
+  assoc_get "tier" (mapo_or_empty (k_commonLabels k)) = None /\
+  (exists k1, apply_op e (Ok k) (AddConfigMap (mkCmFlags ["cm"] [] ["x=1"] "" false "" "" "")) = Ok (Some k1) /\
+              List.length (k_configMapGenerator k1) = 1) /\
+  (exists k1, apply_op e (Ok k) (AddPatch "a.yaml" "" (mkSel "" "" "Deployment" "" "" "" "")) = Ok (Some k1)) /\
+  model_step e (model_step e k (AddResource ["a.yaml"] false)) (RemoveResource ["a.yaml"]) = N k.
+Proof.
+  cbn zeta. split; [reflexivity|].
+  split; [eexists; split; vm_compute; reflexivity|].
+  split; [eexists; vm_compute; reflexivity|].
+  split; [eexists; vm_compute; reflexivity|].
+  split; [vm_compute; reflexivity|].
+  split; [vm_compute; reflexivity|].
+  split; [eexists; split; vm_compute; reflexivity|].
+  split; [eexists; vm_compute; reflexivity|].
+  vm_compute. reflexivity.
+Qed.
